@@ -30,7 +30,7 @@ def all_keys(desc):
 
 
 def write_trace(tracedir, desc, history, require=None, extra_meta=None, cpus_on="first",
-                per_thread_meta=None, make_cfg=True, finished=True, cpu_rng=None, rank_on="all"):
+                per_thread_meta=None, make_cfg=True, finished=True, cpu_rng=None, rank_on="all", require_on="all"):
     """history: list of (clock, key, mcv, payload[, jumbo]).  Each thread of
     `desc` gets a stream (possibly with zero events).  loom_cpus are carried
     by the first thread of the loom (cpus_on='first') or by every thread
@@ -56,6 +56,10 @@ def write_trace(tracedir, desc, history, require=None, extra_meta=None, cpus_on=
                 split[k] = []
             for c in cl:
                 split[cpu_rng.choice(keys)].append(c)
+    # require_on: the model requirements are carried by every thread ('all') or only by the first / the last
+    # thread of the trace (a model is enabled as soon as one stream requires it)
+    allk = all_keys(desc)
+    req_carrier = {"first": allk[0], "last": allk[-1]}.get(require_on)
     per = {}
     for h in history:
         clock, key, mcv = h[0], h[1], h[2]
@@ -78,7 +82,8 @@ def write_trace(tracedir, desc, history, require=None, extra_meta=None, cpus_on=
                 first = False
                 has_rank = rank_on == "all" or carrier.get((l["name"], p["pid"])) == t
                 meta = obs.thread_meta(t, p["pid"], l["name"], app_id=p.get("appid", 1), cpus=cpus,
-                                       require=require, rank=p.get("rank") if has_rank else None,
+                                       require=require if (req_carrier is None or req_carrier == key) else None,
+                                       rank=p.get("rank") if has_rank else None,
                                        nranks=p.get("nranks") if has_rank else None,
                                        extra=extra_meta, finished=finished)
                 if per_thread_meta and key in per_thread_meta:
